@@ -49,3 +49,7 @@ pub proof fn ax_reals()
 #[verifier::external_body] pub fn f_from_i64(a: i64) -> (r: f64) ensures f64r(r) == a as real { a as f64 }
 #[verifier::external_body] pub fn f_from_u64(a: u64) -> (r: f64) ensures f64r(r) == a as real { a as f64 }
 #[verifier::external_body] pub fn qx_unreachable<T>() -> T requires false { unimplemented!() }
+#[verifier::external_body] pub fn f_from_f64(a: f64) -> (r: f64) ensures r == a { a }
+#[verifier::external_body] pub fn f_into(a: f64) -> (r: f64) ensures r == a { a }
+// powi(x, 2) = x·x ; other exponents unspecified
+#[verifier::external_body] pub fn f_powi(a: f64, n: i32) -> (r: f64) ensures n == 2 ==> f64r(r) == f64r(a) * f64r(a) { a.powi(n) }
